@@ -40,10 +40,12 @@ func (c *cache) get(key string) (starlark.Value, bool) {
 //
 //starlark:builtin
 func (c *cache) once(thread *starlark.Thread, fn *starlark.Builtin, key string, function starlark.Callable) (starlark.Value, error) {
+	verifYield("cache.fast", key)
 	if v, ok := c.get(key); ok {
 		return v, nil
 	}
 
+	verifYield("cache.slow", key)
 	c.m.Lock()
 	defer c.m.Unlock()
 
